@@ -433,13 +433,13 @@ func (r *Ref) Highest(e int, c idx.ValidatorID) (idx.Event, bool) {
 	i := r.vidx[c]
 	return r.evs[e].Hi[i], r.evs[e].Fork[i]
 }
-func (r *Ref) Len() int                     { return len(r.evs) }
-func (r *Ref) Ev(i int) *REv                { return r.evs[i] }
+func (r *Ref) Len() int                        { return len(r.evs) }
+func (r *Ref) Ev(i int) *REv                   { return r.evs[i] }
 func (r *Ref) Index(id hash.Event) (int, bool) { i, ok := r.byID[id]; return i, ok }
-func (r *Ref) Sorted() []idx.ValidatorID    { return r.ids }
-func (r *Ref) Weights() []uint64            { return r.w }
-func (r *Ref) Quorum() uint64               { return r.quorum }
-func (r *Ref) Decided() idx.Frame           { return r.decided }
-func (r *Ref) Anc(i int) Bits               { return r.anc[i] }
-func (r *Ref) Roots(f idx.Frame) []int      { return r.roots[f] }
-func (r *Ref) IsConfirmed(i int) bool       { return r.conf.Has(i) }
+func (r *Ref) Sorted() []idx.ValidatorID       { return r.ids }
+func (r *Ref) Weights() []uint64               { return r.w }
+func (r *Ref) Quorum() uint64                  { return r.quorum }
+func (r *Ref) Decided() idx.Frame              { return r.decided }
+func (r *Ref) Anc(i int) Bits                  { return r.anc[i] }
+func (r *Ref) Roots(f idx.Frame) []int         { return r.roots[f] }
+func (r *Ref) IsConfirmed(i int) bool          { return r.conf.Has(i) }
